@@ -28,6 +28,18 @@ CHECKS["C06"] = dict(
     design_ref="DESIGN.md section 2, C06",
 )
 
+CHECKS["C04"] = dict(
+    technique="TLA+ spec ProtoCore (binding table, blame, output validity) + DeviationMC model-checked by TLC + TLC trace validation of the complete single-leaf deviation matrix on real participants",
+    text="ProtoCore.tla states what a run owes its honest parties when one party deviates on the wire: no crash or hang, blame only the deviator, every honest output valid "
+         "(exact over Z_q: shares match the reported verification vector, redistribution keeps the key, signatures verify, session outputs agree) and every changed leaf that the "
+         "binding table marks bound is rejected by an honest party (the addressee for a unicast). DeviationMC lets TLC prove the mathematical content of the table for verifiable "
+         "dealing over Z_5 (all columns, coordinates, errors). The driver runs the complete (round, sender, recipient, CBOR leaf, operator) matrix - about 2500 runs per seed - on the real "
+         "session, HJKY, redistribute (with/without anchor), Gennaro, Canetti and Lindell22 participants plus cosigning aggregation, and TLC validates every run.",
+    note="Trusted: TLC, ProtoCore's binding table (validated against the code by the full matrix), the toy group. One deviating party and one altered leaf per run; strategies that alter several "
+         "leaves consistently are not explored. Curve-specific protocols (DKLs23, Lindell17, Boldyreva, CGGMP21) are not in the matrix.",
+    design_ref="DESIGN.md section 2, C04",
+)
+
 NOT_APPLICABLE = {
     "C13": "byte-level encode/decode fidelity of 256-381-bit curve elements: no state/transition structure and operands TLC cannot represent; a TLA+ specification would decide nothing (DESIGN.md section 3)",
 }
